@@ -203,6 +203,27 @@ Copy(o, how) ==
   /\ LET r == CopyObj(heap, bufs, o) IN heap' = r.h /\ bufs' = r.b
   /\ res' = ObjRes(NextOid)
 
+\* o.to(unit): the same quantity in another unit.  Same unit: an Array returns ITSELF (no copy); a Vector returns a new Vector
+\* over the same component buffers.  Otherwise a fresh object with converted values and an empty name; incompatible: raises.
+ToUnits == <<U1("m"), U1("cm"), U1("s")>>
+ObjTo(o, ui) ==
+  /\ En("to") /\ Step([op |-> "to", o |-> o, u |-> ui]) /\ UNCHANGED <<dgs, dss>>
+  /\ LET u == ToUnits[ui] IN
+     IF ~Compatible(heap[o].unit, u) THEN res' = Exc("Error") /\ UNCHANGED <<heap, bufs>>
+     ELSE IF heap[o].unit = u /\ IsArr(o) THEN res' = ObjRes(o) /\ UNCHANGED <<heap, bufs>>
+     ELSE IF heap[o].unit = u THEN
+          /\ NextOid <= MaxObj
+          /\ IF heap[o].scalar
+             THEN LET r == CopyObj(heap, bufs, o) IN heap' = [r.h EXCEPT ![Len(r.h)].name = ""] /\ bufs' = r.b
+             ELSE heap' = Append(heap, [heap[o] EXCEPT !.name = ""]) /\ UNCHANGED bufs
+          /\ res' = ObjRes(NextOid)
+     ELSE /\ NextOid <= MaxObj
+          /\ LET k == Ratio(heap[o].unit, u)  nc == NComp(o) IN
+             /\ heap' = Append(heap, [heap[o] EXCEPT !.unit = u, !.name = "", !.dt = IF heap[o].dt = "i8" THEN "f8" ELSE heap[o].dt,     \* integers become floats, floats keep their precision
+                                       !.comps = [c \in 1..nc |-> [buf |-> Len(bufs) + c, idx |-> [i \in 1..NRows(o) |-> i]]]])
+             /\ bufs' = bufs \o [c \in 1..nc |-> [i \in 1..NRows(o) |-> RMul(Vals(o, c)[i], k)]]
+          /\ res' = ObjRes(NextOid)
+
 \* ------------------------------------------------------------------ sorting
 \* argsort without ties (pool values are distinct inside a component)
 SortPerm(s) == LET n == Len(s)
@@ -382,6 +403,7 @@ Next ==
   \/ \E g \in Gs, kind \in IdxUse : DgIndex(g, kind)
   \/ \E o \in Os, kind \in IdxUse \ {"maskArr", "iaArr"} : Slice(o, kind)
   \/ \E o \in Os, how \in {"copy", "deepcopy"} : Copy(o, how)
+  \/ \E o \in (IF ObjUse = {} THEN Os ELSE ObjUse \cap Os), ui \in 1..3 : ObjTo(o, ui)
   \/ \E g \in Gs, k \in Keys : DgSortByKey(g, k)
   \/ \E g \in Gs, p \in {<<3, 1, 2>>, <<2, 1>>, <<2, 2, 1>>} : DgSortByIdx(g, p)
   \/ \E op \in OpsUse, o \in (IF ObjUse = {} THEN Os ELSE ObjUse \cap Os), rhs \in {0} \cup (IF ObjUse = {} THEN Os ELSE ObjUse \cap Os) : IOpArgsOk(o, rhs) /\ IOp(op, o, rhs)
